@@ -153,6 +153,22 @@ def _state(ck: Checker) -> None:
             for h in hs:
                 r = g.reach([h.id], skip_node=lambda y: y.id == x.loops[-1])
                 ck.require(x.id not in r, "C10.state", co, x, "a file whose checkout failed is not recorded", "a file whose checkout failed can still be recorded in the hash state", construct=f"{x.text()[:50]} / not from handler")
+            # every successfully checked-out file on a local filesystem is recorded (no further condition)
+            if x.loops:
+                trys = [y for y in g.nodes.values() if y.kind == "stmt" and x.loops[-1] in y.loops for c2 in calls_at(y) if call_name(c2) == "_checkout_file"]
+                for y in trys:
+                    def skip(a, lab, b):
+                        if lab == "exc":
+                            return True
+                        if a.kind != "test":
+                            return False
+                        t_alts = " | ".join([norm(a.ast)] + [norm(z) for z in expand1(prog, co, a.ast, levels=2)])
+                        return lab == "F" and "LocalFileSystem" in t_alts
+                    rr = g.reach([d for lab, d in y.succ if lab != "exc"], skip_node=lambda z, x=x: z.id == x.id, skip_edge=skip, include_start=True)
+                    bad = x.loops[-1] in rr and x.id not in [d for lab, d in y.succ if lab != "exc"]
+                    ck.require(not bad, "C10.state", co, x, "every file checked out without error on a local filesystem gets its hash-state row",
+                               "a file that was checked out successfully can be left out of the hash-state / link-token update (e.g. only 'modified' files are recorded): the saved link token no longer matches the workspace after a relink",
+                               witness=g.fmt_path(g.path_to(rr, x.loops[-1])) if bad else None, construct=f"{x.text()[:50]} / always recorded")
             # after the file was written: dominated by the per-file checkout call
             cf = [y.id for y in g.nodes.values() for c2 in calls_at(y) if call_name(c2) == "_checkout_file"]
             ck.require(avoiding_path(g, x.id, lambda y: y.id in cf, start=x.loops[-1]) is None if x.loops else False, "C10.state", co, x, "the stat is taken after the file was checked out", "the recorded stat can predate the checkout of the file", construct=f"{x.text()[:50]} / after checkout")
@@ -222,6 +238,24 @@ def _linkkind(ck: Checker) -> None:
             ok = names <= {"meta", "is_symlink", "is_hardlink", "is_copy"}
             ck.require(ok, "C10.linkkind", fn, d.node, f"{name} depends only on the workspace file's own metadata", f"`{name} = {norm(d.value)}` depends on {sorted(names - {'meta'})}: a file hard-linked to something other than the cache would be treated as an independent copy and never relinked")
     ck.floor("C10.linkkind", n, 3, "link-kind classifications in _needs_relink")
+    # ... and that metadata is the one stat'ed from the workspace file (change.old), not the target entry's
+    n_call = 0
+    for caller in fn.module.funcs.values():
+        gc_ = ck.cfg(caller)
+        for x in gc_.nodes.values():
+            for c in calls_at(x):
+                if not any(t.fq == fn.fq for t in ck.res.resolve(caller, c)):
+                    continue
+                n_call += 1
+                ma = get_arg(c, fn, "meta")
+                from ..an import value_alts
+
+                alts = [norm(a) for a in value_alts(gc_, x, ma, depth=3)] + [norm(a) for a in expand1(prog, caller, ma, levels=2)] if ma is not None else []
+                ok = any(a.endswith("old.meta") for a in alts) and not any(a.endswith("new.meta") or a.endswith("cache_meta") for a in alts)
+                ck.require(ok, "C10.linkkind", caller, x, "the link kind is judged from the workspace file's own stat (change.old.meta)",
+                           f"the link kind of the workspace file is judged from {alts}: the target entry's recorded metadata says nothing about how the workspace file is linked, so hardlinks/symlinks into the cache are kept when copies were asked for",
+                           construct=f"{norm(c)[:50]} / meta argument")
+    ck.floor("C10.linkkind", n_call, 1, "calls of _needs_relink")
     # is_copy is the complement of the two link kinds (decided by truth table, not by spelling)
     def beval(e, env):
         if isinstance(e, ast.Name):
